@@ -291,6 +291,32 @@ V2 = V1.replace("    required: int32\n", "    required: int32\n    third: uint8?
        .replace("    toUnion: [int32, string]\n", "    toUnion: [int32, string, bool]\n")
 
 
+# a generic type instantiated twice; the definition that changes is reached only through the type argument of the second
+# instantiation (the schema of each version must list it, or old streams are taken for current ones)
+G0 = """Image<T>: !record
+  fields:
+    data: T*
+    w: int32
+
+Pixel: !record
+  fields:
+    v: uint8
+
+Voxel: !record
+  fields:
+    v: int16
+    gone: uint8
+
+Gp: !protocol
+  sequence:
+    a: Image<Pixel>
+    b: Image<Voxel>
+    s: !stream
+      items: Image<Voxel>
+"""
+G1 = G0.replace("    v: int16\n    gone: uint8\n", "    v: int32\n    extra: float32?\n")
+
+
 def small_int(rng, signed, w):
     if w == 1:
         return rng.randint(0, 1)
@@ -433,7 +459,7 @@ def run(ctx):
                    {"broken": failing, "log": log[-3000:]}, no_input=True)
     quick = ctx.tier == "quick"
     rng = ctx.rng
-    chains = [("chain", [V0, V1, V2])]
+    chains = [("chain", [V0, V1, V2]), ("generics", [G0, G1])]
     cases, meta = [], []
     for name, texts in chains:
         vp = Versioned(ctx, name, texts)
